@@ -269,6 +269,7 @@ func (s *c09Space) describe(idx []int) string {
 
 func C09(args []string) {
 	r := core.Begin("C09", "model_checking", args)
+	r.WatchProgress(watchPeriod()) // the code under test runs in this process: a call that never returns must end the check
 	run := func(maxList, dev int, record bool) (n int) {
 		seqCache[len(c09Addrs)] = seqsUpTo(len(c09Addrs), maxList)
 		s := c09NewSpace(maxList)
